@@ -194,9 +194,15 @@ func newE2EEnv(o fingerproxy.VerifOptions) *e2eEnv {
 		panic(err)
 	}
 	e.stack = st
+	if e2eHookStack != nil {
+		e2eHookStack(st)
+	}
 	ln, err := net.Listen("tcp", "127.0.0.1:0")
 	if err != nil {
 		panic(err)
+	}
+	if e2eHookListener != nil {
+		ln = e2eHookListener(e, ln)
 	}
 	e.accepted = &countingListener{Listener: ln}
 	e.ln = e.accepted
